@@ -478,6 +478,8 @@ func runC13(c *Ctx) {
 		}
 	}()
 
+	ruleThresholds(c, p, "C13.thresholds")
+
 	// ---- C13.params
 	rule = "C13.params"
 	c.R.Rule(rule, "query parameters exist from revision 54459 on and the Query encoder omits them below it, so Do refuses a query that carries parameters when the negotiated revision lacks them: the refusal (a test involving Query.Parameters and Feature.In(c.protocolVersion) whose failing edge returns an error) dominates the start of every goroutine of Do - it does not depend on any other option")
